@@ -107,3 +107,136 @@ pub fn op_hist(args: &[&str]) -> String {
     }
     outs.join(" ; ")
 }
+
+// ---------------- serde (C19) ----------------
+use bao_tree::io::{mixed::EncodedItem, BaoContentItem, EncodeError, Leaf, Parent};
+use bao_tree::{ChunkNum, TreeNode};
+
+fn io_kind_of_name(s: &str) -> std::io::ErrorKind {
+    use std::io::ErrorKind::*;
+    match s {
+        "NotFound" => NotFound,
+        "PermissionDenied" => PermissionDenied,
+        "ConnectionRefused" => ConnectionRefused,
+        "ConnectionReset" => ConnectionReset,
+        "ConnectionAborted" => ConnectionAborted,
+        "NotConnected" => NotConnected,
+        "AddrInUse" => AddrInUse,
+        "BrokenPipe" => BrokenPipe,
+        "AlreadyExists" => AlreadyExists,
+        "WouldBlock" => WouldBlock,
+        "InvalidInput" => InvalidInput,
+        "InvalidData" => InvalidData,
+        "TimedOut" => TimedOut,
+        "WriteZero" => WriteZero,
+        "Interrupted" => Interrupted,
+        "Unsupported" => Unsupported,
+        "UnexpectedEof" => UnexpectedEof,
+        "OutOfMemory" => OutOfMemory,
+        "Other" => Other,
+        _ => panic!("bad kind {s}"),
+    }
+}
+
+fn mk_parent(p: &[&str]) -> Parent {
+    let n: u64 = p[0].parse().unwrap();
+    let seed: u64 = p[1].parse().unwrap();
+    let l: [u8; 32] = crate::rng::rand_bytes(seed, 32).try_into().unwrap();
+    let r: [u8; 32] = crate::rng::rand_bytes(seed + 1, 32).try_into().unwrap();
+    Parent { node: node(n), pair: (l.into(), r.into()) }
+}
+fn mk_leaf(p: &[&str]) -> Leaf {
+    let off: u64 = p[0].parse().unwrap();
+    let len: usize = p[1].parse().unwrap();
+    let seed: u64 = p[2].parse().unwrap();
+    Leaf { offset: off, data: crate::rng::rand_bytes(seed, len).into() }
+}
+fn mk_err(p: &[&str]) -> EncodeError {
+    match p[0] {
+        "phm" => EncodeError::ParentHashMismatch(node(p[1].parse().unwrap())),
+        "lhm" => EncodeError::LeafHashMismatch(ChunkNum(p[1].parse().unwrap())),
+        "pw" => EncodeError::ParentWrite(node(p[1].parse().unwrap())),
+        "lw" => EncodeError::LeafWrite(ChunkNum(p[1].parse().unwrap())),
+        "sm" => EncodeError::SizeMismatch,
+        "io" => {
+            let msg = String::from_utf8(blob(&format!("hex:{}", p[2]))).unwrap();
+            EncodeError::Io(std::io::Error::new(io_kind_of_name(p[1]), msg))
+        }
+        _ => panic!("bad err"),
+    }
+}
+fn parent_eq(a: &Parent, b: &Parent) -> bool {
+    a.node == b.node && a.pair == b.pair
+}
+fn leaf_eq(a: &Leaf, b: &Leaf) -> bool {
+    a.offset == b.offset && a.data == b.data
+}
+fn err_eq(a: &EncodeError, b: &EncodeError) -> bool {
+    use EncodeError::*;
+    match (a, b) {
+        (ParentHashMismatch(x), ParentHashMismatch(y)) => x == y,
+        (LeafHashMismatch(x), LeafHashMismatch(y)) => x == y,
+        (ParentWrite(x), ParentWrite(y)) => x == y,
+        (LeafWrite(x), LeafWrite(y)) => x == y,
+        (SizeMismatch, SizeMismatch) => true,
+        // an io error comes back as an io error whose text contains the original kind and message
+        (Io(x), Io(y)) => {
+            let t = y.to_string();
+            y.kind() == std::io::ErrorKind::Other && t == format!("{:?}:{}", x.kind(), x)
+        }
+        _ => false,
+    }
+}
+
+fn rt<T: serde::Serialize + serde::de::DeserializeOwned>(v: &T, eq: impl Fn(&T, &T) -> bool) -> String {
+    let pc = postcard::to_stdvec(v);
+    let js = serde_json::to_vec(v);
+    let pc_ok = pc.as_ref().ok().and_then(|b| postcard::from_bytes::<T>(b).ok()).map(|w| eq(v, &w)).unwrap_or(false);
+    let js_ok = js.as_ref().ok().and_then(|b| serde_json::from_slice::<T>(b).ok()).map(|w| eq(v, &w)).unwrap_or(false);
+    format!(
+        "pc={} js={} rt={}{}",
+        pc.map(|b| dig(&b)).unwrap_or("err".into()),
+        js.map(|b| dig(&b)).unwrap_or("err".into()),
+        b01(pc_ok),
+        b01(js_ok)
+    )
+}
+
+/// `serde <value descriptor>`
+pub fn op_serde(args: &[&str]) -> String {
+    let p: Vec<&str> = args[0].split(':').collect();
+    match p[0] {
+        "node" => rt::<TreeNode>(&node(p[1].parse().unwrap()), |a, b| a == b),
+        "chunk" => rt::<ChunkNum>(&ChunkNum(p[1].parse().unwrap()), |a, b| a == b),
+        "parent" => rt::<Parent>(&mk_parent(&p[1..]), parent_eq),
+        "leaf" => rt::<Leaf>(&mk_leaf(&p[1..]), leaf_eq),
+        "content" => {
+            let v = if p[1] == "parent" { BaoContentItem::Parent(mk_parent(&p[2..])) } else { BaoContentItem::Leaf(mk_leaf(&p[2..])) };
+            rt::<BaoContentItem>(&v, |a, b| match (a, b) {
+                (BaoContentItem::Parent(x), BaoContentItem::Parent(y)) => parent_eq(x, y),
+                (BaoContentItem::Leaf(x), BaoContentItem::Leaf(y)) => leaf_eq(x, y),
+                _ => false,
+            })
+        }
+        "err" => rt::<EncodeError>(&mk_err(&p[1..]), err_eq),
+        "item" => {
+            let v = match p[1] {
+                "size" => EncodedItem::Size(p[2].parse().unwrap()),
+                "parent" => EncodedItem::Parent(mk_parent(&p[2..])),
+                "leaf" => EncodedItem::Leaf(mk_leaf(&p[2..])),
+                "error" => EncodedItem::Error(mk_err(&p[2..])),
+                "done" => EncodedItem::Done,
+                _ => panic!("bad item"),
+            };
+            rt::<EncodedItem>(&v, |a, b| match (a, b) {
+                (EncodedItem::Size(x), EncodedItem::Size(y)) => x == y,
+                (EncodedItem::Parent(x), EncodedItem::Parent(y)) => parent_eq(x, y),
+                (EncodedItem::Leaf(x), EncodedItem::Leaf(y)) => leaf_eq(x, y),
+                (EncodedItem::Error(x), EncodedItem::Error(y)) => err_eq(x, y),
+                (EncodedItem::Done, EncodedItem::Done) => true,
+                _ => false,
+            })
+        }
+        _ => panic!("bad serde value"),
+    }
+}
